@@ -147,6 +147,26 @@ func (dc *DomConverter) exitNodeHandler(node *html.Node) {
 	dc.builder.EndNode()
 }
 
+// isUnlikelyCandidate reports whether the class, id or role
+// of the element marks it as unlikely to be content.
+func isUnlikelyCandidate(node *html.Node) bool {
+	tagName := dom.TagName(node)
+	nodeData := dom.ClassName(node) + " " + dom.ID(node)
+	if rxUnlikelyCandidates.MatchString(nodeData) && !rxOkMaybeItsACandidate.MatchString(nodeData) &&
+		!domutil.HasAncestor(node, "table") && tagName != "body" && tagName != "a" {
+		return true
+	}
+
+	// The value of role is a list of tokens separated by white space, in any
+	// letter case; the first token is the role, the others are fallbacks.
+	for _, role := range strings.Fields(strings.ToLower(dom.GetAttribute(node, "role"))) {
+		_, isUnlikely := unlikelyRoles[role]
+		return isUnlikely
+	}
+
+	return false
+}
+
 func (dc *DomConverter) visitElementNodeHandler(node *html.Node) bool {
 	// In original dom-distiller they skip invisible or uninteresting elements.
 	// Unfortunately it's impossible to do that perfectly here (NEED-COMPUTE-CSS).
@@ -171,18 +191,18 @@ func (dc *DomConverter) visitElementNodeHandler(node *html.Node) bool {
 	// Skip unlikely candidates
 	tagName := dom.TagName(node)
 	if dc.hasFlag(SkipUnlikelies) {
-		if rxUnlikelyCandidates.MatchString(nodeData) && !rxOkMaybeItsACandidate.MatchString(nodeData) &&
-			!domutil.HasAncestor(node, "table") && tagName != "body" && tagName != "a" {
+		if isUnlikelyCandidate(node) {
 			return false
 		}
 
-		// The value of role is a list of tokens separated by white space, in any
-		// letter case; the first token is the role, the others are fallbacks.
-		for _, role := range strings.Fields(strings.ToLower(dom.GetAttribute(node, "role"))) {
-			if _, isUnlikely := unlikelyRoles[role]; isUnlikely {
-				return false
+		// Figures and tables may be put into the output as a whole, without their
+		// descendants being visited: skip the unlikely candidates inside them now.
+		if tagName == "figure" || tagName == "table" {
+			for _, descendant := range dom.GetElementsByTagName(node, "*") {
+				if descendant.Parent != nil && isUnlikelyCandidate(descendant) {
+					descendant.Parent.RemoveChild(descendant)
+				}
 			}
-			break
 		}
 	}
 
